@@ -5,6 +5,7 @@ import (
 	"encoding/json"
 	"flag"
 	"fmt"
+	"math"
 	"os"
 	"regexp"
 	"strings"
@@ -54,6 +55,8 @@ var uuidByName = map[string]string{
 func emailSubject(s string) string {
 	s = strings.ReplaceAll(s, "L63", strings.Repeat("l", 63))
 	s = strings.ReplaceAll(s, "L64", strings.Repeat("l", 64))
+	s = strings.ReplaceAll(s, "LONGS", "\u017f")
+	s = strings.ReplaceAll(s, "KELVIN", "\u212a")
 	return s
 }
 
@@ -166,6 +169,70 @@ func runPredRow(r predRow, emit func(mode string, negated bool, concrete string,
 		if s != 0 {
 			v := s
 			emit("validate", false, fmt.Sprint(s), len(sch.Validate(&v)) == 0)
+		}
+	case "floatnan":
+		val := func(s string) float64 {
+			if s == "nan" {
+				return math.NaN()
+			}
+			return 1
+		}
+		p, s := val(r.Param), val(r.Subj)
+		for _, w := range []string{"float64", "float32"} {
+			if w == "float64" {
+				sch := map[string]func() *z.NumberSchema[float64]{"gt": func() *z.NumberSchema[float64] { return z.Float64().GT(p) }, "gte": func() *z.NumberSchema[float64] { return z.Float64().GTE(p) },
+					"lt": func() *z.NumberSchema[float64] { return z.Float64().LT(p) }, "lte": func() *z.NumberSchema[float64] { return z.Float64().LTE(p) }, "eq": func() *z.NumberSchema[float64] { return z.Float64().EQ(p) }}[r.Test]()
+				var d float64
+				emit("parse", false, fmt.Sprint(s, " vs ", p), len(sch.Parse(s, &d)) == 0)
+				if r.Subj == "nan" {
+					emit("parse-string", false, fmt.Sprint("\"NaN\" vs ", p), len(sch.Parse("NaN", &d)) == 0)
+				}
+				v := s
+				emit("validate", false, fmt.Sprint(s, " vs ", p), len(sch.Validate(&v)) == 0)
+			} else {
+				p32, s32 := float32(p), float32(s)
+				sch := map[string]func() *z.NumberSchema[float32]{"gt": func() *z.NumberSchema[float32] { return z.Float32().GT(p32) }, "gte": func() *z.NumberSchema[float32] { return z.Float32().GTE(p32) },
+					"lt": func() *z.NumberSchema[float32] { return z.Float32().LT(p32) }, "lte": func() *z.NumberSchema[float32] { return z.Float32().LTE(p32) }, "eq": func() *z.NumberSchema[float32] { return z.Float32().EQ(p32) }}[r.Test]()
+				v := s32
+				emit("validate-float32", false, fmt.Sprint(s32, " vs ", p32), len(sch.Validate(&v)) == 0)
+			}
+		}
+	case "deepcontains":
+		equal := r.Subj == "equal"
+		switch r.Param {
+		case "ptr-int":
+			a, b := 3, 3
+			if !equal {
+				b = 4
+			}
+			sch := z.Slice(z.Ptr(z.Int())).Contains(&a)
+			v := []*int{&b}
+			emit("validate", false, fmt.Sprintf("[&%d] has &%d", b, a), len(sch.Validate(&v)) == 0)
+		case "struct-ptr-field":
+			type S struct {
+				N int
+				P *int
+			}
+			a, b := 3, 3
+			if !equal {
+				b = 4
+			}
+			sch := z.Slice(z.Struct(z.Schema{"n": z.Int()})).Contains(S{N: 1, P: &a})
+			v := []S{{N: 1, P: &b}}
+			emit("validate", false, fmt.Sprintf("[{1 &%d}] has {1 &%d}", b, a), len(sch.Validate(&v)) == 0)
+		case "time-offset":
+			// two parses of the same text allocate two *time.Location objects for a non-whole-hour offset
+			t1, _ := time.Parse(time.RFC3339, "2021-06-15T12:00:00+05:30")
+			txt := "2021-06-15T12:00:00+05:30"
+			if !equal {
+				txt = "2021-06-15T12:00:01+05:30"
+			}
+			t2, _ := time.Parse(time.RFC3339, txt)
+			sch := z.Slice(z.Time()).Contains(t1)
+			v := []time.Time{t2}
+			emit("validate", false, fmt.Sprintf("[%s] has %s", t2, t1), len(sch.Validate(&v)) == 0)
+			var d []time.Time
+			emit("parse", false, fmt.Sprintf("[%q] has %s", txt, t1), len(sch.Parse([]any{txt}, &d)) == 0)
 		}
 	case "stroneof":
 		var opts []int
